@@ -503,15 +503,169 @@ fn runtime_case(
     }
 }
 
+
+/// application-level slice: the limits given in the [termination] section of the TOML, observed in the responses
+fn app_case(case_no: usize, rng: &mut Rng, rep: &mut Report) {
+    use crate::appgen::{build_app, AppSpec};
+    use crate::hooks::catch;
+    let mut p = WorldParams::default();
+    p.net.min_v = 6;
+    p.net.max_v = 30;
+    p.net.metric = true;
+    p.allow_turn_delay = false;
+    p.surcharges = false;
+    let mut world = gen_world(rng, &p);
+    for (_, r) in world.cost.vehicle_rates.iter_mut() {
+        if let routee_compass_core::model::cost::vehicle::vehicle_cost_rate::VehicleCostRate::Combined(_) = r {
+            *r = routee_compass_core::model::cost::vehicle::vehicle_cost_rate::VehicleCostRate::Factor { factor: 2.5 };
+        }
+    }
+    let alg = gen_plain_alg(rng, false);
+    let net = world.net.clone();
+    let mut queries = vec![];
+    for i in 0..6 {
+        if let Od::Vertex(o, Some(d)) = gen_vertex_od(rng, &net, true) {
+            if o != d {
+                queries.push(json!({"qid": format!("t{case_no}q{i}"), "origin_vertex": o, "destination_vertex": d}));
+            }
+        }
+    }
+    if queries.is_empty() {
+        return;
+    }
+    let build = |term: TermCfg, world: &mut crate::world::World| {
+        world.term = term;
+        let mut spec = AppSpec::basic(world.clone(), alg.clone());
+        spec.parallelism = 2;
+        catch(|| build_app(&spec, "c10"))
+    };
+    let unlimited = match build(TermCfg::None, &mut world) {
+        Ok(Ok(b)) => b,
+        _ => {
+            rep.inconclusive("the unlimited application could not be built".into());
+            return;
+        }
+    };
+    let base = match catch(|| unlimited.app.run(queries.clone(), None)) {
+        Ok(Ok(v)) => v,
+        _ => {
+            rep.count("app_reference_run_failed_(C12)", 1);
+            return;
+        }
+    };
+    let by_qid = |v: &[Value], qid: &str| v.iter().find(|r| r["request"]["qid"].as_str() == Some(qid)).cloned();
+    let need_max = base.iter().filter_map(|r| r["iterations"].as_u64()).max().unwrap_or(4);
+    let tree_max = base.iter().filter_map(|r| r["tree_size_count"].as_u64()).max().unwrap_or(4);
+    // limits around what the queries need, in increasing order (for the monotonicity clause)
+    let mut settings: Vec<(String, TermCfg, Vec<String>)> = vec![];
+    let mut its: Vec<u64> = vec![0, rng.urange(1, need_max.max(2) as usize) as u64, need_max / 2 + 1, need_max + 3];
+    its.sort();
+    its.dedup();
+    for l in its {
+        settings.push((format!("iterations={l}"), TermCfg::Iterations(l), vec![format!("exceeded iteration limit of {l}")]));
+    }
+    let sz = rng.urange(1, tree_max.max(2) as usize + 3);
+    settings.push((format!("solution_size={sz}"), TermCfg::SolutionSize(sz), vec![format!("exceeded solution size limit of {sz}")]));
+    let (ci, cs) = (rng.urange(1, need_max.max(2) as usize + 3) as u64, rng.urange(1, tree_max.max(2) as usize + 3));
+    settings.push((format!("combined(iterations={ci},solution_size={cs})"), TermCfg::Combined(vec![TermCfg::Iterations(ci), TermCfg::SolutionSize(cs)]), vec![format!("exceeded iteration limit of {ci}"), format!("exceeded solution size limit of {cs}")]));
+    let freq = *rng.pick(&[1u64, 2, 3]);
+    settings.push((format!("runtime=0,frequency={freq}"), TermCfg::Runtime { limit_ms: 0, frequency: freq }, vec!["exceeded runtime limit of".to_string()]));
+    let mut iter_ok: std::collections::BTreeMap<String, Vec<(u64, bool)>> = Default::default();
+    for (name, term, texts) in settings {
+        let kind = name.split(['=', '(']).next().unwrap_or("").to_string();
+        let limited = match build(term.clone(), &mut world) {
+            Ok(Ok(b)) => b,
+            Ok(Err(e)) => {
+                rep.violate(&format!("C10|app|{kind}|configuration-refused"), format!("a well-formed [termination] section was refused: {}", e.lines().next().unwrap_or("")), || json!({"termination": name, "toml": e}));
+                continue;
+            }
+            Err(pm) => {
+                rep.violate(&format!("C10|app|{kind}|{}", crate::hooks::panic_sig(&pm)), pm, || json!({"termination": name}));
+                continue;
+            }
+        };
+        let got = match catch(|| limited.app.run(queries.clone(), None)) {
+            Ok(Ok(v)) => v,
+            Ok(Err(e)) => {
+                rep.violate(&format!("C10|app|{kind}|run-returns-err"), format!("run() failed under {name}: {e}"), || json!({"toml": limited.toml, "batch": queries}));
+                continue;
+            }
+            Err(pm) => {
+                rep.violate(&format!("C10|app|{kind}|{}", crate::hooks::panic_sig(&pm)), pm, || json!({"toml": limited.toml, "batch": queries}));
+                continue;
+            }
+        };
+        for q in &queries {
+            rep.eval();
+            let qid = q["qid"].as_str().unwrap_or("");
+            let (u, r) = match (by_qid(&base, qid), by_qid(&got, qid)) {
+                (Some(u), Some(r)) => (u, r),
+                _ => continue,
+            };
+            let replay = || json!({"termination": name, "toml": limited.toml, "query": q, "unlimited_response": u, "limited_response": r});
+            let u_err = u.get("error").map(|e| e.to_string());
+            match r.get("error").map(|e| e.to_string()) {
+                None => {
+                    // L5 an answer under a limit is the unlimited answer
+                    if u_err.is_some() {
+                        rep.violate(&format!("C10|app|{kind}|answer-where-unlimited-fails"), format!("L5 {name}: a route was returned, the unlimited run says {}", u_err.clone().unwrap_or_default().chars().take(200).collect::<String>()), replay);
+                        continue;
+                    }
+                    if r["route"]["path"] != u["route"]["path"] {
+                        rep.violate(&format!("C10|app|{kind}|result-differs-from-unlimited"), format!("L5 {name}: route {} differs from the unlimited route {}", r["route"]["path"], u["route"]["path"]), replay);
+                        continue;
+                    }
+                    rep.count("app_answers_identical_to_unlimited", 1);
+                    if let TermCfg::Iterations(l) = &term {
+                        iter_ok.entry(qid.to_string()).or_default().push((*l, true));
+                    }
+                }
+                Some(text) => {
+                    let limit_named = texts.iter().any(|t| text.contains(t.as_str()));
+                    let terminated = text.contains("terminated");
+                    if terminated && limit_named {
+                        rep.count("app_terminated_responses_naming_the_limit", 1);
+                        rep.seen("app_termination_texts", texts.iter().find(|t| text.contains(t.as_str())).map(|t| t.split(" of ").next().unwrap_or("").to_string()).unwrap_or_default());
+                        if u_err.is_none() && u["iterations"].as_u64().unwrap_or(0) >= 3 {
+                            rep.nontrivial(hash_str(&format!("app|{}|{qid}|{name}", net.ne())));
+                            rep.sample(|| json!({"level": "application", "termination": name, "query": q, "error": text.chars().take(160).collect::<String>(), "unlimited_iterations": u["iterations"], "unlimited_route": u["route"]["path"]}));
+                        }
+                        if let TermCfg::Iterations(l) = &term {
+                            iter_ok.entry(qid.to_string()).or_default().push((*l, false));
+                        }
+                    } else if u_err.as_deref() == Some(text.as_str()) || (u_err.is_some() && text.contains("no path")) {
+                        // the query fails in the same way without any limit (unreachable pair)
+                        rep.count("app_same_error_as_unlimited", 1);
+                    } else if terminated {
+                        rep.violate(&format!("C10|app|{kind}|termination-does-not-name-the-limit"), format!("L4 {name}: {}", text.chars().take(300).collect::<String>()), replay);
+                    } else {
+                        rep.violate(&format!("C10|app|{kind}|limit-reported-as-another-error"), format!("L4 {name}: the unlimited run {} but the limited run says {}", if u_err.is_some() { "fails differently" } else { "succeeds" }, text.chars().take(300).collect::<String>()), replay);
+                    }
+                }
+            }
+        }
+    }
+    // L6 success is monotone in the iteration limit
+    for (qid, mut v) in iter_ok {
+        v.sort();
+        if let Some(w) = v.windows(2).find(|w| w[0].1 && !w[1].1) {
+            rep.violate("C10|app|iterations|success-not-monotone", format!("L6 query {qid} succeeds with limit {} and is terminated with limit {}", w[0].0, w[1].0), || json!({"query": qid, "outcomes": v}));
+        }
+    }
+}
+
 pub fn run(tier: Tier, seed: u64) -> MonOut {
     let n = tier.n(8_000, 300_000);
     let n_timed = tier.n(640, 12_000);
     let mut rep = par_cases(seed, n, |_i, rng, rep| case(tier, rng, rep, false));
     let r2 = par_cases(seed ^ 0x10, n_timed, |_i, rng, rep| case(tier, rng, rep, true));
     rep.merge(r2);
+    // application-level slice: limits from the TOML, verdicts from the responses
+    let r3 = par_cases(seed ^ 0x20, tier.n(160, 4_000), |i, rng, rep| app_case(i, rng, rep));
+    rep.merge(r3);
     MonOut {
         report: rep,
-        rule: "generated networks x plain searches (Dijkstra / A* any weight factor, forward/reverse, with/without destination) and k-shortest-path searches (each sub-search observed separately); per query an unlimited reference run, then sweeps of the iteration limit 0..need+3 and of the solution-size limit 0..tree+3 (all values when small, else ends + random interior), random combined limits, a zero runtime budget at check frequencies 1,2,3,7 and a 10..30 ms budget expiring mid-search (traversal model sleeping 1..2 ms per edge, frequency 1..7). observed through LoopTop/Pop/SearchEnd hook events (the error path exposes no counters). non-trivial = the unlimited search needs >= 3 expansions; distinct by (network, algorithm, od, direction) resp. (runtime setting, terminating iteration)".into(),
+        rule: "generated networks x plain searches (Dijkstra / A* any weight factor, forward/reverse, with/without destination) and k-shortest-path searches (each sub-search observed separately); per query an unlimited reference run, then sweeps of the iteration limit 0..need+3 and of the solution-size limit 0..tree+3 (all values when small, else ends + random interior), random combined limits, a zero runtime budget at check frequencies 1,2,3,7 and a 10..30 ms budget expiring mid-search (traversal model sleeping 1..2 ms per edge, frequency 1..7). observed through LoopTop/Pop/SearchEnd hook events (the error path exposes no counters). application-level slice: per generated world one unlimited application and seven limited ones ([termination] iterations x4 around the need, solution_size, combined, query_runtime 0 with frequency 1..3), the same six queries through each; a limited response is either the unlimited route or a 'terminated' error naming the configured limit, never another error, and success is monotone in the iteration limit. non-trivial = the unlimited search needs >= 3 expansions; distinct by (network, algorithm, od, direction) resp. (runtime setting, terminating iteration)".into(),
         assumptions: vec![
             "an 'expansion step' is a popped vertex; the tree is sampled at every loop top and at return".into(),
             "runtime verdicts are one-sided so that machine load cannot cause alarms: a stop must be on schedule and not before the budget (harness clock starts before the search's own), and a scheduled check may not be passed later than budget + 250 ms".into(),
